@@ -57,6 +57,8 @@ let handle mode op args =
   | "fs", [fl; ind; bi; a] ->
       out_bytes (dump_format_schema d (mk_fopts (bytes_of_hex fl) (bytes_of_hex ind)) (str_of_hex bi = "1") (bytes_of_hex a))
   | "load", srcs -> out_bytes (dump_load_with d (prelude mode) (List.map bytes_of_hex srcs))
+  | "val", rules :: q :: srcs ->
+      out_bytes (dump_validate_with d (prelude mode) (bytes_of_hex rules) (bytes_of_hex q) (List.map bytes_of_hex srcs))
   | _ -> "BADOP"
 
 let () =
